@@ -243,6 +243,14 @@ def run_modes(res, scratch, rng):
                     {"op": "remove", "q": ("noop", "measurement")},
                     {"op": "remove_all"},
                     {"op": "drop_measurement", "name": "m0"},
+                    {"op": "drop_measurement", "name": "never-a-measurement"},
+                    {"op": "remove_all", "via": "h", "m": "never-a-measurement"},
+                    {"op": "remove", "via": "h", "m": "never-a-measurement", "q": ("noop", "measurement")},
+                    {"op": "update", "via": "h", "m": "never-a-measurement", "q": ("noop", "measurement"), "args": {"tags": {"static": {"zz": "1"}}}},
+                    {"op": "update_all", "via": "h", "m": "m0", "args": {"tags": {"static": {"zz": "1"}}}},
+                    {"op": "remove", "q": ("cmp", "tags", ("nokey",), "==", "zz")},
+                    {"op": "insert_multiple", "ps": []},
+                    {"op": "insert", "via": "h", "m": "m0", "p": gen.gen_point(rng, gen.MEAS, False)},
                 ]
                 reads = query_probes(rng, s.model, prof)[:6] + getter_probes(rng, s.model, prof)[:8]
                 if mode == "r":
@@ -260,7 +268,7 @@ def run_modes(res, scratch, rng):
                             break
                 elif mode == "a":
                     # append-only handle: inserts are allowed, everything else must raise and change nothing
-                    for op in writes[1:]:
+                    for op in [o for o in writes if o["op"] not in ("insert", "insert_multiple")]:
                         b = w.snap()
                         out = s.do(op)
                         a = w.snap()
